@@ -48,9 +48,15 @@ DoRequires(e) ==
        /\ Need(e.configure_exit # 0 \/ \A x \in Points : e.exists[x] = ~Accepts(T, x), "ConflictsRefuseExactlyTheDeclaredVersions", e.exists)
   ELSE /\ Need((e.configure_exit # 0) = (Unsat(T) \/ e.multi), "UnsatisfiableRequirementRejectedAtConfigure", e.configure_exit)
        /\ Need(e.configure_exit # 0 \/ \A x \in Points : e.exists[x] = Accepts(T, x), "RequiresAcceptsExactlyTheDeclaredVersions", e.exists)
+\* a second project that uses the generated package through package() with the real compiler
+DoConsumer(e) ==
+  /\ Need(e.producer_exit = 0, "ProducerBuilds", e.producer_exit)
+  /\ Need(e.configure_exit = 0, "ConsumerFindsThePackage", e.configure_exit)
+  /\ Need(e.build_exit = 0, "ConsumerBuildsAgainstTheProject", e.build_exit)
+  /\ Need(e.run_exit = 0 /\ e.out = 42, "ConsumerRuns", <<e.run_exit, e.out>>)
 TraceNext == /\ l <= Len(Traces[t].events)
              /\ LET e == Traces[t].events[l] IN
-                CASE e.ev = "Flags" -> DoFlags(e) [] e.ev = "Simplify" -> DoSimplify(e) [] e.ev = "Requires" -> DoRequires(e)
+                CASE e.ev = "Flags" -> DoFlags(e) [] e.ev = "Simplify" -> DoSimplify(e) [] e.ev = "Requires" -> DoRequires(e) [] e.ev = "Consumer" -> DoConsumer(e)
              /\ l' = l + 1 /\ UNCHANGED <<t, S>>
 TraceSpec == TraceInit /\ [][TraceNext]_tvars
 =============================================================================
